@@ -4,8 +4,8 @@ package main
 // unresolved conflicts are reported, LALR(1) grammars are never rejected.
 
 import (
-	"os"
 	"fmt"
+	"os"
 	"regexp"
 	"sort"
 	"strings"
